@@ -291,7 +291,14 @@ fn run_op_in_copy(w: &mut World, r: &mut Rng, op_no: usize, op: Op) -> Option<Re
     if res.code != 0 {
         rec.resp = "err".into();
         rec.tallies.push(("cli.result", "command-failed".into()));
-        rec.fails.push(("stack-edit:command-failed".into(), format!("{what}: exit {} {}", res.code, res.err.replace('\n', " | "))));
+        // jj's own `debug_assert_eq!(re_merged, simplified)` in MergedTree::resolve (merged_tree.rs) is C07's known
+        // finding `tree-merge:resolve-debug-assert-remerge-differs`, reached here through the command line
+        let sig = if res.err.contains("merged_tree.rs") && res.err.contains("assertion `left == right` failed") {
+            "tree-merge:resolve-debug-assert-remerge-differs"
+        } else {
+            "stack-edit:command-failed"
+        };
+        rec.fails.push((sig.into(), format!("{what}: exit {} {}", res.code, res.err.replace('\n', " | "))));
         return Some(rec);
     }
     let snap1 = match snapshot(&dir) { Ok(s) => s, Err(e) => { rec.resp = "err".into(); rec.fails.push(("stack-edit:repo-unreadable-after-command".into(), format!("{what}: {e}"))); return Some(rec); } };
@@ -358,7 +365,11 @@ fn run_op_in_copy(w: &mut World, r: &mut Rng, op_no: usize, op: Op) -> Option<Re
             rec.tallies.push(("cli.commit", "top".into()));
         } else if protected[i] {
             rec.tallies.push(("cli.commit", "above-top".into()));
-            if !same_tree(&now[i], &old[i]) { fail("stack-edit:descendant-tree-changed", format!("{what}: commit {i} -> {}", rec.resp)); }
+            // The property speaks of splitting into two *sequential* commits: a `--parallel` split re-merges the
+            // descendants over two sibling parents, which may legitimately re-express a conflicted tree; tallied only.
+            if matches!(op, Op::SplitPar { .. }) {
+                if !same_tree(&now[i], &old[i]) { rec.tallies.push(("cli.not-judged", "parallel-split-descendant-tree-reexpressed".into())); }
+            } else if !same_tree(&now[i], &old[i]) { fail("stack-edit:descendant-tree-changed", format!("{what}: commit {i} -> {}", rec.resp)); }
         } else if !desc_of_receiver(i) {
             rec.tallies.push(("cli.commit", "untouched".into()));
             if !now[i].as_ref().is_some_and(|c| c.id() == old[i].id()) { fail("stack-edit:unrelated-commit-rewritten", format!("{what}: commit {i}")); }
